@@ -620,6 +620,11 @@ def to_coq(case):
         # fnmatch.translate reproduces a well-formed bracket expression verbatim ("[ab]", "[a-z]"), so the server's
         # heuristic does NOT take such a last segment for a filter; the model treats every '[' as one.  Oracle only.
         return None
+    for i, c in enumerate(case["cmds"]):
+        if c[0] == "MKD" and "/" in c[1].strip("/") and any(d[0] in ("CWD", "CDUP") for d in case["cmds"][i + 1:]):
+            # makeDirectory is makedirs: a nested MKD may create intermediate directories a later CWD can enter, but the
+            # model's [access] is the fixed directory set of the scratch tree.  Oracle only.
+            return None
     cmds = []
     for c in case["cmds"]:
         if c[0] == "CWD":
